@@ -16,11 +16,11 @@ def _nontrivial(t):
 def run(tier):
     rnd = random.Random(common.seed() + 8)
     n = 160 if tier == 'quick' else 3000
-    jobs = ec.random_jobs(rnd, n, label='pol', gen_kw=dict(partial_joins=False, p_join=1.0, p_retry=0.3, p_policy=0.4, p_cmd=0.02, p_err=0.35))
+    jobs = ec.random_jobs(rnd, n, label='pol', gen_kw=dict(partial_joins=False, p_join=1.0, p_retry=0.3, p_policy=0.4, p_cmd=0.02, p_err=0.35, policy_on_joins=0.3))
     # pause-before (alone, or together with wait-before / another policy): the operator lets timers fire, or not,
     # and resumes whenever the run has come to rest
     pj = ec.random_jobs(rnd, n // 4, label='pausebefore', gen_kw=dict(partial_joins=False, p_join=1.0, p_retry=0.15, p_policy=0.3, p_cmd=0.0, p_err=0.25,
-                                                                      p_pause=0.35))
+                                                                      p_pause=0.35, policy_on_joins=0.3))
     for j in pj:
         npb = sum(1 for d in j['prog'].tasks.values() if d.get('pause-before'))
         ops = []
@@ -34,6 +34,25 @@ def run(tier):
     for k, j in enumerate(jobs):
         if k % 3 == 0:
             j['policy'] = 'time_races'
+    # fixed shapes: a retry policy (count 2) on a plain task and on a join that waits for all inbound tasks; every attempt fails,
+    # or the last one succeeds
+    from harness import gen, engrun
+    for joined in (False, True):
+        for last_ok in (False, True):
+            for delay in (0, 1):
+                P = gen.Program()
+                P.order = ['a', 'b', 'j', 'z']
+                P.tasks = {'a': {'kind': 'action', 'succ': [{'to': 'j'}], 'err': [], 'comp': []},
+                           'b': {'kind': 'action', 'succ': ([{'to': 'j'}] if joined else []), 'err': [], 'comp': []},
+                           'j': {'kind': 'action', 'retry': {'count': 2, 'delay': delay}, 'succ': [{'to': 'z'}], 'err': [], 'comp': []},
+                           'z': {'kind': 'action', 'succ': [], 'err': [], 'comp': []}}
+                if joined:
+                    P.tasks['j']['join'] = -1
+                P.oracle = {'j': ['err', 'err', 'ok' if last_ok else 'err']}
+                P.flags = {'retry': True}
+                for k, sch in enumerate(('default', 'legacy')):
+                    jobs.append(dict(prog=P, scheduler=sch, policy=engrun.POLICIES[1:][(k + delay + 2 * joined) % 7], seed=k + 1,
+                                     label='retry2_%s_%s_d%d' % ('join' if joined else 'plain', 'ok' if last_ok else 'err', delay)))
     return ec.run_property(PID, tier, jobs,
                            'generated programs whose tasks carry retry (count 1-2, delay 0/1), wait-before, wait-after, timeout (1-3 s, literal or '
                            'expression), fail-on and pause-before (also combined with wait-before; resumed by the operator at rest) policies with per-attempt outcomes from the oracle, under a virtual clock; one third of the '
